@@ -9,11 +9,16 @@ package scheduler
 
 import (
 	"bytes"
+	"encoding/binary"
 	"errors"
 	"fmt"
 	"io"
+	"net"
 	"sync"
 	"time"
+
+	"github.com/golang/protobuf/proto"
+	"github.com/uber/kraken/lib/torrent/scheduler/connstate"
 
 	"github.com/andres-erbsen/clock"
 	"github.com/uber-go/tally"
@@ -297,7 +302,8 @@ type vWorld struct {
 	peers    []*vPeer    // fake peer attached to the current dispatcher, per blob
 	peerCtrl []*torrentControl
 	npeers   int
-	base     time.Time // clock reading at the start of the current case
+	base     time.Time  // clock reading at the start of the current case
+	remotes  []net.Conn // remote ends of incoming connections of the current case
 	cleanup  func()
 }
 
@@ -378,6 +384,13 @@ func (w *vWorld) reset(seederTTI, leecherTTI time.Duration) {
 			p.recvOnce.Do(func() { close(p.recv) })
 		}
 		w.peers[i], w.peerCtrl[i], w.tors[i] = nil, nil, nil
+	}
+	for _, nc := range w.remotes {
+		nc.Close()
+	}
+	w.remotes = nil
+	for _, c := range w.stConns() {
+		c.Close()
 	}
 	for _, b := range w.blobs {
 		w.cads.Any().DeleteFile(b.digest.Hex())
@@ -550,4 +563,100 @@ func (w *vWorld) submit(e event) bool {
 	}
 	e.apply(w.st)
 	return true
+}
+
+// ---------------------------------------------------------------- incoming connections
+
+// vIncoming is what became of one incoming connection attempt.
+type vIncoming struct {
+	res    string     // acceptfail | rejected | failed | active | connrejected
+	c      *conn.Conn // the established conn (active / connrejected)
+	remote net.Conn   // the remote peer's end of the pipe
+}
+
+// incoming plays a remote peer that opens a connection: it sends a handshake whose Name is the digest of
+// torrent `name`, whose InfoHash is `claim` and whose bitfield is `bf`, and then reads whatever comes
+// back. On our side the real path runs: Handshaker.Accept, incomingHandshakeEvent (applied here),
+// scheduler.establishIncomingHandshake (on its own goroutine, as in the code), and the event it sends —
+// incomingConnEvent or failedIncomingHandshakeEvent — is applied when it arrives.
+func (w *vWorld) incoming(peerID core.PeerID, name int, claim core.InfoHash, bfBytes []byte) *vIncoming {
+	nc1, nc2 := net.Pipe()
+	out := &vIncoming{remote: nc2}
+	w.remotes = append(w.remotes, nc2)
+	msg := &p2p.Message{Type: p2p.Message_BITFIELD, Bitfield: &p2p.BitfieldMessage{
+		PeerID: peerID.String(), InfoHash: claim.Hex(), Name: w.blobs[name].digest.Hex(), Namespace: vNamespace,
+		BitfieldBytes: bfBytes}}
+	data, err := proto.Marshal(msg)
+	if err != nil {
+		panic(err)
+	}
+	go func() {
+		var hdr [4]byte
+		binary.BigEndian.PutUint32(hdr[:], uint32(len(data)))
+		nc2.Write(append(hdr[:], data...))
+		io.Copy(io.Discard, nc2) // read the reply handshake and anything else until our side closes
+	}()
+	pc, err := w.sched.handshaker.Accept(nc1)
+	if err != nil {
+		nc1.Close()
+		out.res = "acceptfail"
+		return out
+	}
+	// will AddPending accept the pair? (probe, undone at once) — incomingHandshakeEvent reports nothing
+	if perr := w.st.conns.AddPending(peerID, claim, nil); perr != nil {
+		incomingHandshakeEvent{pc}.apply(w.st)
+		out.res = "rejected"
+		return out
+	}
+	w.st.conns.DeletePending(peerID, claim)
+	incomingHandshakeEvent{pc}.apply(w.st)
+	e, ok := w.loop.take(func(e event) bool {
+		switch x := e.(type) {
+		case incomingConnEvent:
+			return x.c.PeerID() == peerID
+		case failedIncomingHandshakeEvent:
+			return x.peerID == peerID
+		}
+		return false
+	}, 10*time.Second)
+	if !ok {
+		panic("harness: the incoming handshake produced no event")
+	}
+	e.apply(w.st)
+	if ce, isConn := e.(incomingConnEvent); isConn {
+		out.c = ce.c
+		if ce.c.IsClosed() {
+			out.res = "connrejected"
+		} else {
+			out.res = "active"
+		}
+	} else {
+		out.res = "failed"
+	}
+	return out
+}
+
+// pairStatus reports what connstate holds for (peer, hash), through its public API only.
+func (w *vWorld) pairStatus(peerID core.PeerID, h core.InfoHash) string {
+	switch err := w.st.conns.AddPending(peerID, h, nil); err {
+	case nil:
+		w.st.conns.DeletePending(peerID, h)
+		return "free"
+	case connstate.ErrConnAlreadyPending:
+		return "pending"
+	case connstate.ErrConnAlreadyActive:
+		return "active"
+	case connstate.ErrTorrentAtCapacity:
+		return "cap"
+	default:
+		return "other"
+	}
+}
+
+// stConns returns the active conns of the current state (nil before the first state exists).
+func (w *vWorld) stConns() []*conn.Conn {
+	if w.st == nil {
+		return nil
+	}
+	return w.st.conns.ActiveConns()
 }
